@@ -137,7 +137,9 @@ func main() {
 	n := flag.Int("n", 300, "approximate number of cases per strategy")
 	thorough := flag.Bool("thorough", false, "larger scopes")
 	replay := flag.String("replay", "", "evidence/replay/C13-*.json: re-run exactly that case (range / roundrobin only; sticky steps depend on their chain)")
+	norev := flag.Bool("norevhook", false, "the sticky.revert call site is not available in the tree under test")
 	flag.Parse()
+	bg.RevHook = !*norev
 	sarama.Logger = nopLogger{}
 	var only *caseJSON
 	if *replay != "" {
@@ -243,20 +245,39 @@ func main() {
 	if only != nil {
 		nchains = 0
 	}
-	for c := 0; c < nchains && hangs == 0; c++ {
-		ident := c%2 == 0
+	// plus directed chains: a bystander set aside as "fixed", non-identical subscriptions, everybody owning something, then
+	// leaves / subscription changes (the neighbourhood of the revert branch of balance())
+	nby := *n / 3
+	if only != nil {
+		nby = 0
+	}
+	for c := 0; c < nchains+nby && hangs == 0; c++ {
+		bystander := c >= nchains
+		ident := c%2 == 0 && !bystander
 		nm, nt, mp := 1+r.Intn(5), 1+r.Intn(3), 6
 		if c%10 == 9 {
 			nm, nt, mp = 4+r.Intn(12), 2+r.Intn(5), 12
 		}
-		w := bg.NewWorldIdent(rand.New(rand.NewSource(r.Int63())), nm, nt, mp, ident)
+		var w *bg.World
+		if bystander {
+			w = bg.BystanderWorld(rand.New(rand.NewSource(r.Int63())))
+		} else {
+			w = bg.NewWorldIdent(rand.New(rand.NewSource(r.Int63())), nm, nt, mp, ident)
+		}
 		var prevIn *bg.Input
 		var prevPlan []bg.PlanEntry
 		steps := 3 + r.Intn(4)
+		if bystander {
+			steps = 3
+		}
 		for s := 0; s < steps; s++ {
 			change := "first"
 			if s > 0 {
-				change = w.MutateKind(ident)
+				if bystander {
+					change = w.BystanderChange()
+				} else {
+					change = w.MutateKind(ident)
+				}
 			}
 			in := w.Input(false)
 			run := bg.RunSticky(in)
@@ -311,7 +332,7 @@ func main() {
 				}
 			}
 			ws.Add(cf.App("Build_s13case", run.CoqCase(fx), prevStr, cf.Z(int64(rel)), cf.Bool(ident), bg.StrList(stay)),
-				cf.Sidecar{Case: cj, Kind: "sticky-honest-" + change, Nontrivial: in.Nontrivial() && run.RawPlan != nil, Monitor: mon})
+				cf.Sidecar{Case: cj, Kind: map[bool]string{false: "sticky-honest-", true: "sticky-bystander-"}[bystander] + change, Nontrivial: in.Nontrivial() && run.RawPlan != nil, Monitor: mon})
 			if run.RawPlan == nil {
 				break
 			}
